@@ -19,6 +19,7 @@ inductive Reply where
   | rerr (s : Bytes)   -- a redis error message (raw text)
   | nilr               -- redis nil
   | xerr (s : Bytes)   -- a non-redis error (transport error or an error made by the client)
+  | cerr (s : Bytes)   -- the caller's context error, seen with a context that is done (the call was abandoned)
   deriving Repr, DecidableEq, Inhabited
 
 inductive Mode where
@@ -64,6 +65,7 @@ def classify : Reply → Mode
   | .val _ => .none
   | .nilr => .none
   | .xerr _ => .retry
+  | .cerr _ => .none   -- `ctx.Err() != nil`: not retried, no refresh
   | .rerr t =>
     let s := errText t
     match (if pMOVED.isPrefixOf s then third (splitSp s) else none) with
@@ -122,6 +124,9 @@ structure World where
   log : List Call := []
   /-- every reply handed out: `(command id, node, reply)`, oldest first -/
   replies : List (Nat × Bytes × Reply) := []
+  /-- ghost: per-connection batches (`retry` objects) that were handed back to the pool, i.e. whose command
+      slice was cleared: `(connection, ids of its commands)` -/
+  recycled : List (ConnId × List Nat) := []
   deriving Repr
 
 def tagOf (id : Nat) (addr : Bytes) : Bytes := b ("r" ++ toString id ++ "@") ++ addr
